@@ -122,6 +122,53 @@ def compare(case, iline, mline):
     return None
 
 
+def resolved_oracle(case, line):
+    """the geometric oracle: when resolve() reports the target resolved, its octabox at offset + shift must not overlap (with positive
+    measure, on all four axes x, y, x+y, x-y) any box standing for the merged neighbour; and offset + shift must respect the limit"""
+    t = line.split()
+    if 'ABORT' in t[1:3]:
+        return ('abort',)
+    if len(t) < 3 or t[1] != 'COLL2' or not t[2].startswith('init='):
+        return None
+    kv = dict(x.split('=', 1) for x in t[2:8] if '=' in x)
+    if kv.get('init') != '1' or kv.get('merged') != '1':
+        return ('unmerged',)
+    if kv.get('isCol') == '1':
+        return ('collides',)
+    f = case.split()
+    lbx, lby, ltx, lty, ox, oy, sx0, sy0, nx, ny = (float(v) for v in f[7:17])
+    shx, shy = (float(v) for v in kv['shift'].split(','))
+    ti = t.index('T'); ni = t.index('N')
+    txi, tyi, txa, tya, tsi, tdi, tsa, tda = (float(v) for v in t[ti + 1].split(','))
+    # positions relative to the collider's origin (the target's anchor without its offset): the target sits at offset + shift,
+    # the neighbour at its origin minus that anchor
+    Tx, Ty = ox + shx, oy + shy
+    Nx, Ny = nx, ny
+    tol = 0.51
+    margin = float(f[17])
+    boxes = [tuple(float(v) for v in b.split(',')) for b in t[ni + 2:]]
+    nsub = int(t[ni + 1].split('=')[1])
+    main = boxes[0]
+    # "within reach of its limit rectangle" as ShiftCollider::mergeSlot tests it: the neighbour's main box against the limit rectangle
+    # re-based by the offset (note that the test ignores the extent of the target's own box: see DESIGN.md Appendix C.4, F25)
+    l_bx, l_by, l_tx, l_ty = lbx - ox, lby - oy, ltx - ox, lty - oy
+    reach = (Nx + main[2] + margin >= l_bx and Nx + main[0] - margin <= l_tx) or (Ny + main[3] + margin >= l_by and Ny + main[1] - margin <= l_ty)
+    for nbx in ([','.join(map(str, b)) for b in (boxes[1:] if nsub > 0 else boxes[:1])]):
+        bxi, byi, bxa, bya, bsi, bdi, bsa, bda = (float(v) for v in nbx.split(','))
+        ov = (min(Tx + txa, Nx + bxa) - max(Tx + txi, Nx + bxi), min(Ty + tya, Ny + bya) - max(Ty + tyi, Ny + byi),
+              min(Tx + Ty + tsa, Nx + Ny + bsa) - max(Tx + Ty + tsi, Nx + Ny + bsi), min(Tx - Ty + tda, Nx - Ny + bda) - max(Tx - Ty + tdi, Nx - Ny + bdi))
+        if all(o > tol for o in ov) and not reach:
+            return ('known-reach', 'the neighbour overlaps the target\'s octabox by (%.1f, %.1f, %.1f, %.1f) but fails ShiftCollider::mergeSlot\'s reach test, which compares the neighbour\'s box with the limit rectangle '
+                                   'of origin movement and ignores the extent of the target\'s own box: nothing is excluded and the glyph is reported resolved at shift (%g, %g) (neighbour at (%g,%g), limit [(%g,%g),(%g,%g)])'
+                                   % (ov[0], ov[1], ov[2], ov[3], shx, shy, nx, ny, lbx, lby, ltx, lty))
+        if all(o > tol for o in ov):
+            return ('violation', 'ShiftCollider::resolve reports the glyph resolved at shift (%g, %g) yet its octabox overlaps the neighbour\'s by (%.1f, %.1f, %.1f, %.1f) on the x, y, sum and diff axes '
+                                 '(offset (%g,%g), neighbour at (%g,%g))' % (shx, shy, ov[0], ov[1], ov[2], ov[3], ox, oy, nx, ny))
+    if not (lbx - tol <= Tx <= ltx + tol and lby - tol <= Ty <= lty + tol):
+        return ('violation', 'resolved shift (%g, %g) puts the accumulated offset (%g, %g) outside the limit rectangle [(%g,%g),(%g,%g)]' % (shx, shy, Tx, Ty, lbx, lby, ltx, lty))
+    return ('resolved',)
+
+
 def run(chk):
     chk.trusted += ['hand model Model/ZonesModel.v of src/Intervals.cpp over exact integers (SD weights in quarter units)',
                     'component harness harness/impl_zones.cpp (private members of graphite2::Zones read through #define private public)']
@@ -200,6 +247,36 @@ def run(chk):
             if not (lbx - tol <= ax <= ltx + tol and lby - tol <= ay <= lty + tol):
                 chk.violation('c17:limit:axis%s:%s' % (f[14], ' '.join(f[6:16])), 'ShiftCollider::resolve computed shift (%s, %s): accumulated offset (%g, %g) leaves the limit rectangle [(%g,%g),(%g,%g)] '
                               '(offset (%g,%g), current shift (%g,%g), axis %s)' % (sh[0], sh[1], ax, ay, lbx, lby, ltx, lty, ox, oy, sx, sy, f[14]), dict(case=c, got=l[:600]))
+    # --- the resolved-verdict clause on the real ShiftCollider: two glyphs of a live Awami segment at arbitrary relative origins
+    rcases = []
+    for k in range(20000 if chk.tier == 'thorough' else 2500):
+        font = rng.choice(sorted(texts))
+        lim = rng.choice((100, 200, 400, 1000))
+        lbx, lby, ltx, lty = -lim, -rng.choice((lim, lim // 2, 0)), lim, rng.choice((lim, lim // 2))
+        ox, oy = (0, 0) if rng.random() < 0.5 else (rng.randrange(lbx // 2, ltx // 2 + 1), rng.randrange(lby // 2, lty // 2 + 1))
+        sx, sy = (0, 0) if rng.random() < 0.6 else (rng.randrange((lbx - ox) // 2, (ltx - ox) // 2 + 1), rng.randrange((lby - oy) // 2, (lty - oy) // 2 + 1))
+        a, b = rng.sample(range(4), 2)
+        arab = [c for c in S.repertoire(vlib.REPO, font) if 0x620 <= c <= 0x6FF]
+        txt = [rng.choice(arab) for _ in range(5)] if arab and rng.random() < 0.7 else texts[font]      # many glyph pairs: with and without sub-boxes
+        rcases.append('r%d coll2 %s %s %d %d %d %d %d %d %d %d %d %d %d %d %d %s %d %d' % (k, font, ''.join('%08x' % c for c in txt), a, b, rng.choice((1, 1, 3)),
+                      lbx, lby, ltx, lty, ox, oy, sx, sy, rng.randrange(-900, 901), rng.randrange(-900, 901), rng.choice(('0', '10', '50')), rng.randrange(2), rng.randrange(2)))
+    _, rl, _ = vlib.run_pair(None, w, rcases, timeout=2400)
+    nres = 0
+    for c, l in zip(rcases, rl):
+        if l is None:
+            chk.tie_break('harness', 'no result line', c[:300]); continue
+        bad = resolved_oracle(c, l)
+        if bad is None:
+            continue
+        if bad[0] == 'abort':
+            chk.violation('c17:coll2-abort:%s' % ' '.join(c.split()[4:18]), 'ShiftCollider aborted: %s' % l[:300], dict(case=c, got=l[:600])); continue
+        nres += bad[0] == 'resolved'
+        classes.add(('coll2', bad[0], c.split()[17], c.split()[18]))
+        if bad[0] == 'violation':
+            chk.violation('c17:resolved:%s' % ' '.join(c.split()[4:19]), bad[1], dict(case=c, got=l[:1200]))
+        if bad[0] == 'known-reach':
+            chk.violation('c17:reach-test-ignores-target-extent', bad[1], dict(case=c, got=l[:1200]))
+    chk.notes.append('resolved-verdict clause: %d arrangements reported resolved and checked against the octabox separation oracle' % nres)
     nshift = 0
     for c, l in zip(ecases, el):
         if l is None:
@@ -214,7 +291,7 @@ def run(chk):
                     nshift += 1
         classes.add(('e2e', c.split()[2], l.split()[1][:6] if len(l.split()) > 1 else ''))
     chk.notes.append('zones: %d sequences, %d mixed-kind sequences compared by oracle only; end to end: %d collision-font segments, %d slots with a non-zero collision offset; limit clause: %d resolve() answers checked' % (len(cases), mixed, len(ecases), nshift, ncoll))
-    chk.cov.update(evaluations=len(cases) + len(ecases) + len(ccases), distinct_nontrivial=len(classes), disagreements_checked=ndis, distribution=dist,
+    chk.cov.update(evaluations=len(cases) + len(ecases) + len(ccases) + len(rcases), distinct_nontrivial=len(classes), disagreements_checked=ndis, distribution=dist,
                    rule='Zones: initialise (XY 60%% / SD 40%%, 6%% zero width) then 1-16 operations from exclude / exclude_with_margins / weighted (f, m possibly negative) / closest, end points drawn from '
                         'existing boundaries +-{0,1,2} (touching, equal, nested, overlapping, outside) on an integer lattice; full list comparison after every operation, oracle on sortedness, bounds, excluded '
                         'ranges and closest answers; end to end: Awami fonts x generated texts under ASan/UBSan; non-trivial = distinct (kind, zero width, #ops, op kinds, list length class)',
@@ -225,6 +302,13 @@ def replay(chk, obj):
     case = obj.get('replay', {}).get('case') or (obj.get('broken') or [{}])[-1].get('case')
     if not case:
         print('no case'); return 1
+    if case.split()[1] == 'coll2':
+        w = engine.build(chk)
+        _, il, _ = vlib.run_pair(None, w, [case], shards=1)
+        print(case[:300]); print(' impl :', (il[0] or '')[:800])
+        r = resolved_oracle(case, il[0] or '')
+        print(' oracle:', r)
+        return 1 if r and r[0] in ('violation', 'abort', 'known-reach') else 0
     if case.split()[1] == 'coll':
         w = engine.build(chk)
         _, il, _ = vlib.run_pair(None, w, [case], shards=1)
